@@ -314,10 +314,11 @@ _SHARED1 = b'<top xmlns="urn:cc"><fl>b2 b0</fl></top>'
 
 
 def witness_err_rec():
-    """Sched.err_rec_pointer_stable_refuted: threads 0..4 each log their first error one after the other (5 records in
-    the 8-slot table); thread 0 then calls ly_err_last(): ly_err_get_rec() finds its record and drops the lock (H7: the
-    hook increments the counter to 6 and waits for 7); thread 5 logs its first error: the 6th insert reaches 75 % and
-    lyht_resize() frees the arena; thread 0 continues and dereferences its pointer"""
+    """regression of /repo commit 75f292f (former witness of err_rec_pointer_stable_refuted, Example
+    C16_former_err_rec_witness): threads 0..4 each log their first error one after the other (5 records in the 8-slot
+    table); thread 0 then calls ly_err_last(): ly_err_get_rec() finds its record and drops the lock (H7: the hook
+    increments the counter to 6 and waits for 7); thread 5 logs its first error: the 6th insert reaches 75 % and
+    lyht_resize() frees the arena; thread 0 continues and must still get its own error"""
     thr = ["Px0,N,W5,H7,E", "W1,Px0,N", "W2,Px0,N", "W3,Px0,N", "W4,Px0,N", "W6,Px0,N"]
     return "\t".join(["conc", "6", "1", "f", "-1", "1", "x:" + hexs(_BAD)] + thr)
 
@@ -339,7 +340,6 @@ CANON_PRINT = re.compile(r"^lyplg_type_print_(bits|binary|date_and_time|ipv4_add
                          r"ipv6_address|ipv6_address_no_zone|ipv6_prefix|union)$")
 STRING_MAKERS = {"malloc", "calloc", "realloc", "memcpy", "strdup", "strndup", "asprintf", "vasprintf", "sprintf", "vsprintf",
                  "snprintf", "vsnprintf", "__vasprintf_internal", "strcpy", "strncpy", "memset"}
-ERR_USERS = {"ly_err_last", "ly_err_first", "log_store", "ly_err_clean", "ly_err_move"}
 
 
 def parse_out(out):
@@ -362,17 +362,8 @@ def parse_out(out):
 
 def classify_tsan(kind, s1, s2):
     """tag of one ThreadSanitizer report (function names of the two stacks, innermost first, wrappers removed);
-    None = not one of the listed findings"""
-    def rec_insert(s):
-        # the insertion of a new thread's error record (may resize = free the arena)
-        return "ly_err_new_rec" in s and ("lyht_resize" in s or "lyht_insert" in s)
-
-    def rec_use(s):
-        # use of a record pointer after ly_err_get_rec()/ly_err_new_rec() dropped the lock
-        return bool(s) and s[0] in ERR_USERS
-    if (rec_insert(s1) and rec_use(s2)) or (rec_insert(s2) and rec_use(s1)):
-        return "err-rec-resize"
-
+    None = not the listed finding. (The former tag err-rec-resize is retired: fixed in /repo commit 75f292f; a report about
+    the error records is a plain violation now.)"""
     def lazy_store(s):
         # dict_insert() writing  *str_p  (= value->_canonical) for a lazily caching print callback
         return len(s) >= 3 and s[0] == "dict_insert" and s[1] in ("lydict_insert_zc", "lydict_insert") and \
@@ -433,7 +424,7 @@ def scenario(rng, kind):
     """one abstract scenario: per thread a list of calls, a total order of the calls (with preemptions), rendered for the C
     driver (W/N/H/Z operations) and for the model (M:/O:/K: fields). kind: 'calls' (call-level interleaving), 'canon' (k
     threads are preempted between the test of value->_canonical and the store), 'errrec' (a thread is preempted between
-    ly_err_get_rec and the dereference while the 6th error record is created)"""
+    ly_err_get_rec and the use of the record while the 6th error record is created and the table enlarged)"""
     if kind == "errrec":
         nthr = 6
         calls = [["L"] for _ in range(5)] + [["L"]]
@@ -559,7 +550,7 @@ class ConcModel(Comp):
     name = "conc"
     driver = "t_conc"
     slice = "conc"
-    sanitize = False        # the dangling-pointer scenarios are real use-after-free: not run under ASan
+    sanitize = False        # the driver wraps free() and stops threads at hooks: only the release build is used here
 
     def gen(self, rng, tier, scale=1.0):
         L = [witness_err_rec_m(), witness_canon_m()]
@@ -569,31 +560,21 @@ class ConcModel(Comp):
         return L
 
     def norm(self, line, out):
-        hooked_err = any(re.search(r"(^|,)H\d+", f) for f in line.split("\t")[8:] if not f[:2] in ("M:", "O:", "K:"))
         if out.startswith("dangling="):         # model
             m = re.match(r"dangling=(\d+) leak=(\d+) lockviol=(\d+) done=(\w+) res=(\S*)$", out)
             if not m or m.group(4) != "true":
                 return "MODEL:" + out
-            if hooked_err:
-                return "dangling=%d" % min(1, int(m.group(1)))
             nthr = int(line.split("\t")[1])
             res = ";".join(m.group(5).split(";")[:nthr])
             return "dangling=%s leak=%s lockviol=%s res=%s" % (m.group(1), m.group(2), min(1, int(m.group(3))), res)
-        if hooked_err and out.startswith("CRASH("):
-            return "dangling=1"                 # the dereference of the freed record crashed
         r = parse_out(out)
         if r is None:
             return "IMPL:" + out
-        if hooked_err:
-            # the freed arena is zeroed and kept by the driver: the dangling pointer makes the thread's errors disappear
-            if r["verdict"] == "ok":
-                return "dangling=0"
-            if re.match(r"DIFF r\d+t\d+o\d+:E:noerr!=e\d", r["verdict"]) and r["dangling"]:
-                return "dangling=1"
-            return "IMPL:" + out
         if r["verdict"] != "ok":
             return "IMPL:" + out
-        return "dangling=%d leak=%d lockviol=%d res=%s" % (r["dangling"], r["leak"][0], min(1, r["lock"][1]), r["res"])
+        # the dangling= field of the driver is informational (arena of record pointers reallocated); a use of a dangling
+        # record would show as a lost error record, i.e. as a DIFF above
+        return "dangling=0 leak=%d lockviol=%d res=%s" % (r["leak"][0], min(1, r["lock"][1]), r["res"])
 
     def witness(self, line, model_out, impl_out):
         r = parse_out(impl_out)
@@ -621,8 +602,9 @@ def witness_canon_m():
 class ConcSerial:
     """C16 on the implementation: per-thread results on a shared context and a shared tree equal the results of the same
     workload run alone; dictionary balance, no not-freed warning, every dictionary / error table access under its lock
-    (lock-set trace), and on the ThreadSanitizer build no report. Known races (DESIGN section 7) are recognised by their
-    stacks / consequences and tagged err-rec-resize, canon-lazy-cache."""
+    (lock-set trace), and on the ThreadSanitizer build no report. The one listed race (lazily cached canonical strings of a
+    shared tree, canon-lazy-cache) is recognised by its stacks / consequences; the former err-rec-resize is fixed (75f292f):
+    first errors of many threads while others read theirs must be clean."""
     name = "conc-serial"
     driver = "t_conc"
     kinds = ["rel", "tsan"]
@@ -640,7 +622,7 @@ class ConcSerial:
             clean.append(make_case(rng, rng.randrange(3, 9), reps, "p", shared=False))
         for _ in range(4 * n):          # lazily cached canonical strings of the shared tree are generated by the threads
             lazy.append(make_case(rng, rng.randrange(2, 6), reps, "p"))
-        for _ in range(3 * n):          # first errors of >= 6 threads while others read theirs
+        for _ in range(3 * n):          # first errors of >= 6 threads while others read theirs (table arena resized)
             errs.append(make_case(rng, rng.randrange(6, 9), reps, "w", want_err=True))
         # ThreadSanitizer reports one pair of stacks once per process: in every process (shard) the cases in which nothing
         # may be reported run first, so that a new race is not first seen (and attributed) in a case where a listed race
@@ -657,17 +639,11 @@ class ConcSerial:
 
     def judge(self, line, out):
         f = line.split("\t")
-        nthr, flags = int(f[1]), f[3]
-        warm, prime, forced = "w" in flags, "p" in flags, "f" in flags
-        # >= 6 threads create their error records while others use theirs: the arena race of err_ht can happen. Its
-        # unlocked write (log_store: rec->err = e into the freed arena) corrupts the heap, so in such a case a crash, a
-        # lost / foreign error record or an unbalanced dictionary are attributed to it; table accesses without the lock
-        # and ThreadSanitizer reports with other stacks are not.
-        may_err_race = ((not prime) and nthr >= 6) or line == witness_err_rec()
+        flags = f[3]
+        warm = "w" in flags
+        # the only listed race left: lazily cached canonical strings of a shared tree that was not warmed
         may_canon_race = (not warm) and f[4] != "-1"
         if out.startswith("CRASH(") or out in ("TIMEOUT", "HANG"):
-            if may_err_race and out.startswith("CRASH("):
-                return ("err-rec-resize", "%s in a case where >= 6 threads create their error records concurrently" % out)
             return (None, out)
         r = parse_out(out)
         if r is None:
@@ -684,24 +660,19 @@ class ConcSerial:
             desc = "ThreadSanitizer: %s: %s / %s" % (t[0], "<".join(t[1][:5]), "<".join(t[2][:5]))
             if tag is None:
                 return (None, desc)
-            if (tag == "canon-lazy-cache" and not may_canon_race) or (tag == "err-rec-resize" and not may_err_race):
-                return (None, "a listed race in a case constructed to exclude it: " + desc)
-        found = None
+            if tag == "canon-lazy-cache" and not may_canon_race:
+                return (None, "the listed race in a case constructed to exclude it: " + desc)
         if r["verdict"] != "ok":
-            if not may_err_race:
-                return (None, r["verdict"])
-            found = ("err-rec-resize", r["verdict"])
+            return (None, r["verdict"])
+        found = None
         n, attributable = r["leak"]
         if n or r["dict"][0] != r["dict"][1]:
             if may_canon_race and n == attributable and r["dict"][1] - r["dict"][0] <= n:
-                found = found or ("canon-lazy-cache", "%d cached canonical strings of shared values not freed (dict %d -> %d)"
-                                  % (n, r["dict"][0], r["dict"][1]))
-            elif may_err_race:
-                found = found or ("err-rec-resize", "dictionary unbalanced after the error table race: %s" % out[:120])
+                found = ("canon-lazy-cache", "%d cached canonical strings of shared values not freed (dict %d -> %d)"
+                         % (n, r["dict"][0], r["dict"][1]))
             else:
                 return (None, "dictionary not back to the post-setup state: %s" % out[:200])
-        # r["dangling"] (the arena was reallocated while a thread was stopped behind ly_err_get_rec) is informational: the
-        # driver zeroes and keeps the freed arena, so a use of the dangling pointer shows as a lost error record (DIFF)
+        # r["dangling"] (the table arena was reallocated while a thread was stopped behind ly_err_get_rec) is informational
         if found:
             return found
         for tag, t in tags:
